@@ -218,6 +218,10 @@ var ConstructSnippets = []string{
 	`echo f0(1), f0(1, 2), f0(b: 3, a: 4), f0(...[5, 6]);`,
 	`$f = function($x) use ($a) { return $x + $a; }; echo $f(2);`,
 	`$g = fn($x) => $x * $a; echo $g(3);`,
+	`$g = fn() => 7; echo $g();`,
+	`echo "a@{$a}b", "c@{$a + 1}d", "e{$a}f", "g${a}h";`,
+	`echo 7 % 2, 7 % 0 == 1 ? 'x' : 'y';`,
+	`if (false) { echo 1 % 0, 2 / 0, 1 << -1, 0 ** -1; } echo 'alive';`,
 	`if ($a > 0) { echo 'p'; } elseif ($a < 0) { echo 'n'; } else { echo 'z'; }`,
 	`if ($a) echo 'one'; else echo 'two';`,
 	`for ($i = 0; $i < 3; $i++) { if ($i == 1) { continue; } echo $i; }`,
@@ -239,4 +243,69 @@ var ConstructSnippets = []string{
 	`$cl = function() { static $n = 0; $n++; return $n; }; echo $cl(), $cl();`,
 	`echo $a == 1 ? ($b == 2 ? 'x' : 'y') : 'z';`,
 	`return; echo 'never';`,
+}
+
+// OperatorLiteralPrograms: every binary operator between two LITERAL operands from a boundary pool,
+// in live code, in dead code and inside an uncalled function: a parser that evaluates anything at
+// parse time (constant folding, literal normalisation) meets every literal pair here, including the
+// ones whose run-time evaluation is an error (`7 % 0`, `1 << -1`, `0 ** -1`, `9223372036854775807 + 1`).
+func OperatorLiteralPrograms() []string {
+	ops := []string{"+", "-", "*", "/", "%", "**", ".", "<<", ">>", "&", "|", "^", "&&", "||", "??", "==", "!=", "===", "!==", "<", "<=", ">", ">=", "<=>"}
+	lits := []string{"0", "1", "2", "7", "-1", "(-1)", "64", "9223372036854775807", "99999999999999999999", "0.0", "0.5", "1e308", "''", "'0'", "'a'", "\"7\"", "true", "false", "null", "[]", "[1]"}
+	var out []string
+	for _, op := range ops {
+		for _, r := range lits {
+			var sb strings.Builder
+			sb.WriteString("function never_called() {\n")
+			for _, l := range lits {
+				fmt.Fprintf(&sb, "  $v = %s %s %s;\n", l, op, r)
+			}
+			sb.WriteString("}\nif (false) {\n")
+			for _, l := range lits {
+				fmt.Fprintf(&sb, "  echo %s %s %s;\n", l, op, r)
+			}
+			sb.WriteString("}\n")
+			for _, l := range lits {
+				fmt.Fprintf(&sb, "try { $v = %s %s %s; } catch (\\Throwable $e) { }\n", l, op, r)
+			}
+			sb.WriteString("echo 'done';\n")
+			out = append(out, sb.String())
+		}
+	}
+	return out
+}
+
+// NestedPrograms: every nestable construct nested d levels deep around variables (not only literals:
+// speculative parses are triggered by what an element starts with). Parsing must stay within the
+// time budget whatever the depth; doubling per level shows at depth ~20.
+func NestedPrograms(depths []int) []string {
+	type form struct{ open, close, sep string }
+	forms := []form{
+		{"[$a, ", "]", ""}, {"[", ", $a]", ""}, {"($a + ", ")", ""}, {"f0($a, ", ")", ""}, {"[$a => ", "]", ""}, {"['k' => ", ", 'l' => $a]", ""},
+		{"($a ? ", " : $b)", ""}, {"($a ?? ", ")", ""}, {"!(", ")", ""}, {"-(", ")", ""}, {"(fn($x) => ", ")($a)", ""}, {"$arr[", "]", ""},
+		{"{\"k\": ", "}", ""}, {"isset($a, ", ")", ""}, {"\"p@{", "}q\"", ""}, {"(int)(", ")", ""}, {"max($a, $b, ", ")", ""}, {"new K0(", ")", ""},
+	}
+	var out []string
+	for _, f := range forms {
+		for _, d := range depths {
+			body := "1"
+			for i := 0; i < d; i++ {
+				body = f.open + body + f.close
+			}
+			out = append(out, "$a = 1; $b = 2; $arr = [0, 1];\n$x = "+body+";\necho 'parsed';\n")
+		}
+	}
+	// statement-level nesting
+	for _, d := range depths {
+		var sb strings.Builder
+		for i := 0; i < d; i++ {
+			sb.WriteString("if ($a) { while ($b) { ")
+		}
+		sb.WriteString("$b = 0; ")
+		for i := 0; i < d; i++ {
+			sb.WriteString("} } ")
+		}
+		out = append(out, "$a = 1; $b = 1;\n"+sb.String()+"\necho 'parsed';\n")
+	}
+	return out
 }
